@@ -16,7 +16,8 @@ def run(tier, seed):
     rd = v.run_dir("c19")
     fxv = v.build_harness()
     rng = random.Random(seed)
-    shard_cpus = [2, 4, 16] if tier == "quick" else [2, 4, 6, 8, 10, 12, 14, 16]
+    # odd counts too: shards and workers are both derived from the visible CPUs and must agree
+    shard_cpus = [2, 3, 5, 16] if tier == "quick" else [2, 3, 4, 5, 6, 7, 8, 9, 10, 11, 12, 13, 14, 15, 16]
     jobs = []
     for cpus in shard_cpus:
         for variant in (["small", "burst"] if tier == "quick" else ["small", "small2", "burst", "busy"]):
